@@ -12,7 +12,7 @@
    [wb_hook]: they write only caller-owned objects or objects the library allocated during the
    very operation, and never link the caller's objects with the library's.  These are predicates
    on arbitrary functions, not on the enumeration used by the harness. *)
-From SC Require Import Base.Prelude Alias.Owned Alias.OwnedProofs Alias.LayerProofs
+From SC Require Import Base.Prelude Alias.Owned Alias.OwnedProofs Alias.LayerProofs Alias.TraitProofs
   Alias.C07Judge Alias.C07JudgeProofs.
 
 (* Every message published at any point of any history - stored values, results, event old and
@@ -77,6 +77,23 @@ Theorem C07_family_well_behaved : forall c, icode_proved c = true ->
   wb_before (icode_fun c) /\ wb_after (icode_fun c).
 Proof. exact icode_proved_wb. Qed.
 Print Assumptions C07_family_well_behaved.
+(* The trait interceptors with in-place edits, as repaired (they work on proto.Clone(old)), are
+   well-behaved for every message, name, capacity bit and fuel: parentpb AddChildTrait /
+   RemoveChildTrait (traitUnion / traitRemove) and metadatapb MergeMetadata.  Histories through
+   these models are therefore inside C07_published_frozen. *)
+Theorem C07_parent_union_well_behaved : forall n f key name realloc, wb_before (i_union n f key name realloc).
+Proof. exact wb_union. Qed.
+Print Assumptions C07_parent_union_well_behaved.
+Theorem C07_parent_remove_well_behaved : forall n f key name, wb_before (i_remove n f key name).
+Proof. exact wb_remove. Qed.
+Print Assumptions C07_parent_remove_well_behaved.
+Theorem C07_metadata_merge_well_behaved : forall n f key realloc, wb_before (i_meta n f key realloc).
+Proof. exact wb_meta. Qed.
+Print Assumptions C07_metadata_merge_well_behaved.
+Theorem C07_trait_interceptors_in_fragment : forall c, icode_proved_before c = true -> wb_before (icode_fun c).
+Proof. exact icode_proved_before_wb. Qed.
+Print Assumptions C07_trait_interceptors_in_fragment.
+
 Theorem C07_seed_hooks_well_behaved : forall c, scode_proved c = true ->
   wb_hook (scode_fun c) /\ pure_hook (scode_fun c).
 Proof. exact scode_proved_wb. Qed.
@@ -152,3 +169,9 @@ Example C07_nonvacuous_history :
   forallb cop_proved w_good = true /\ model_ok true w_good = true
   /\ zlen (snaps (run fuel (init_state true) (map cop_op w_good))) = 12.
 Proof. exact w_good_ok. Qed.
+
+(* ... and the trait-model witnesses with the repaired code are inside the proved fragment too *)
+Example C07_nonvacuous_trait_histories :
+  forallb cop_proved (w_parent_remove false) = true /\ forallb cop_proved (w_parent_union false) = true /\
+  forallb cop_proved (w_metadata false) = true /\ forallb cop_proved (w_enterleave false) = true.
+Proof. exact w_repaired_in_fragment. Qed.
